@@ -190,6 +190,19 @@ TheSchema == [
         F("key_block", Bool), F("shard_hashes", HmE(32, Ref(BinTree(Lite(Named("ShardDescr")))))),
         F("shard_fees", Maybe(RefCell)), F("shard_fees_extra", Named("ShardFeeCreated")),
         F("r1", Ref(Named("McBlockExtraR"))), F("config", If("key_block", Named("ConfigParams"))) >>) >>,
+  \* ---- shard state
+  \* shard_state#9023afe2 global_id:int32 shard_id:ShardIdent seq_no:uint32 vert_seq_no:# gen_utime:uint32 gen_lt:uint64 min_ref_mc_seqno:uint32
+  \*   out_msg_queue_info:^OutMsgQueueInfo before_split:(## 1) accounts:^ShardAccounts ^[ overload_history:uint64 underload_history:uint64
+  \*   total_balance:CurrencyCollection total_validator_fees:CurrencyCollection libraries:(HashmapE 256 LibDescr) master_ref:(Maybe BlkMasterInfo) ]
+  \*   custom:(Maybe ^McStateExtra) = ShardStateUnsplit;     _ (HashmapAugE 256 ShardAccount DepthBalanceInfo) = ShardAccounts;
+  \* (the library keeps out_msg_queue_info as a cell and the library descriptors as their leaf slices)
+  ShardStateR |-> << Alt("r1", <<>>, << F("overload_history", U(64)), F("underload_history", U(64)), F("total_balance", CC),
+        F("total_validator_fees", CC), F("libraries", HmE(256, AnyRest)), F("master_ref", Maybe(Named("BlkMasterInfo"))) >>) >>,
+  ShardStateUnsplit |-> << Alt("shard_state", Tag32(144, 35, 175, 226), << F("global_id", I(32)), F("shard_id", Named("ShardIdent")),
+        F("seq_no", U(32)), F("vert_seq_no", U(32)), F("gen_utime", U(32)), F("gen_lt", U(64)), F("min_ref_mc_seqno", U(32)),
+        F("out_msg_queue_info", RefCell), F("before_split", Bool),
+        F("accounts", Ref(HmAugE(256, Lite(Named("ShardAccount")), Named("DepthBalanceInfo")))),
+        F("r1", Ref(Named("ShardStateR"))), F("custom", Maybe(Ref(Lite(Named("McStateExtra"))))) >>) >>,
   \* ---- the block itself
   \* block_extra in_msg_descr:^InMsgDescr out_msg_descr:^OutMsgDescr account_blocks:^ShardAccountBlocks rand_seed:bits256 created_by:bits256
   \*   custom:(Maybe ^McBlockExtra) = BlockExtra;   InMsgDescr = HashmapAugE 256 InMsg ImportFees, OutMsgDescr = HashmapAugE 256 OutMsg
